@@ -295,7 +295,8 @@ def run_check(
     for r in skipped:
         skip_reasons[r["skipped"]] = skip_reasons.get(r["skipped"], 0) + 1
     cov = {
-        "states": len({case_hash(r["case"]) for r in executed}),
+        "states": sum(int(r.get("n_states", 1)) for r in executed),
+        "cases": len({case_hash(r["case"]) for r in executed}),
         "transitions": steps,
         "traces_validated_against_impl": len(executed),
         "evaluations": len(results),
